@@ -169,10 +169,24 @@ def gen_reads(rng, tier):
     return {"kind": "reads", "label": s, "as_constraint": rng.random() < 0.4, "vars": [], "cons": []}
 
 
+def gen_reads_names(rng, tier):
+    """2-4 binary variables whose labels may form the reader's two-word keywords when adjacent"""
+    pool = ["subject", "to", "such", "that", "Subject", "TO", "Such", "THAT", "subjec", "too", "x", "y1", "tha", "suc"]
+    k = rng.randint(2, 4)
+    names = []
+    while len(names) < k:
+        w = rng.choice(pool) if rng.random() < 0.85 else gen_reads(rng, tier)["label"]
+        if w not in names:
+            names.append(w)
+    return {"kind": "reads_names", "names": names, "vars": [], "cons": []}
+
+
 def gen_case0(rng, tier):
     used = set()
     r = rng.random()
-    if r > 0.9:
+    if r > 0.94:
+        return gen_reads_names(rng, tier)
+    if r > 0.86:
         return gen_reads(rng, tier)
     if r < 0.22:
         # refusal stream: one reason (sometimes none: control)
@@ -540,7 +554,39 @@ def run_reads(c):
             "nontrivial": True, "observed": None if ok else "did not come back"}
 
 
+def run_reads_names(c):
+    names = c["names"]
+    feats = {"kind": "reads_names", "two_word": two_word_zone([[n, 'BINARY'] for n in names]),
+             "zone": next((label_zone(n) for n in names if label_zone(n)), "none")}
+    cqm = dimod.ConstrainedQuadraticModel()
+    obj = dimod.QuadraticModel()
+    for i, n in enumerate(names):
+        cqm.add_variable('BINARY', n)
+        obj.add_variable('BINARY', n)
+        obj.add_linear(n, float(i + 1))
+    cqm.set_objective(obj)
+    lhs = dimod.QuadraticModel()
+    lhs.add_variable('BINARY', names[0]); lhs.add_variable('BINARY', names[-1])
+    lhs.add_linear(names[0], 1.0); lhs.add_linear(names[-1], -2.0)
+    cqm.add_constraint_from_model(lhs, '>=', -1.0, label='c0')
+    try:
+        text = lp.dumps(cqm)
+    except ValueError as e:
+        return {"py_fail": f"generator produced a label dump refuses: {e}", "features": feats}
+    try:
+        new = lp.loads(text)
+        ok = (set(new.variables) == set(cqm.variables) and list(new.constraints) == ['c0']
+              and new.objective.is_equal(cqm.objective) and new.constraints['c0'].lhs.is_equal(cqm.constraints['c0'].lhs)
+              and all(new.vartype(x) is cqm.vartype(x) for x in cqm.variables))
+    except Exception:
+        ok = False
+    return {"coq": f"(KReadsNames {clist([ctext(n) for n in names])} {cbool(ok)})", "py_fail": None, "features": feats,
+            "nontrivial": True}
+
+
 def run_case(c):
+    if c["kind"] == "reads_names":
+        return run_reads_names(c)
     if c["kind"] == "reads":
         return run_reads(c)
     if c["kind"] == "refuse":
